@@ -60,6 +60,10 @@ def classify(n):
             for k, v in zip(d.keys, d.values):
                 if v is q and isinstance(k, ast.Constant) and k.value == "rel_address":
                     return "bookkeeping (rel_address)"
+        if isinstance(d, ast.keyword) and d.arg == "rel_address":
+            return "bookkeeping (rel_address)"
+        if isinstance(d, ast.Assign) and len(d.targets) == 1 and isinstance(d.targets[0], ast.Name):
+            return "bookkeeping (address arithmetic kept in a local)"
     return None
 
 
@@ -134,7 +138,8 @@ def run(ck):
     ck.run_rule("C09.R23", "PC-relative words are target - rel_address; absolute words and opcode words ignore the address", 260, rule_R23)
     ck.run_rule("C04.R3", "branch/SOB displacement depends on target - rel_address only", 8, c04.rule_R3)
     ck.run_rule("C04.R1", "rel_address = '.' + 2 + preceding operand words", 150, c04.rule_R1)
-    ck.run_rule("C02.R6", "the base enters as the start of the first file; continuation across files", 4, c02.rule_R6)
+    ck.run_rule("C02.R6", "the base enters as the start of the first file; continuation across files", 3, c02.rule_R6)
+    ck.run_rule("C02.R7", "the base enters as the start of the first linked file; later files start at base + lengths before them", 3, c02.rule_R7)
     ck.run_rule("C03.R7", "LinearPolynomial algebra keeps the base linear (cancellation)", 18, c03.rule_R7)
     from . import c01
     ck.run_rule("C01.T5", "index words of 'a-b(r)' operands are the expression as written (a difference of labels stays base-free)", 8, c01.rule_T5)
